@@ -28,7 +28,10 @@ SOURCES = ["splink/internals/comparison_level_creator.py", "splink/internals/com
 def translator_stage(ctx: Ctx, grid):
     progs = P.creator_programs(grid, G.ENTRY)
     ce = P.column_expression_programs()
-    allp = progs + ce
+    callees = P.callee_programs(progs)
+    ctx.cov["non_inlined_callees_checked"] = len(callees)
+    ctx.cov["allowed_shared_state"] = dict(P.E.ALLOWED_STATE)
+    allp = progs + ce + callees
     ctx.cov["translated_sources"] = {p: git_blob(REPO / p) for p in SOURCES}
     text = P.gen_text(allp)
     ok, out = ctx.coqc_text("C17_gen", text)
@@ -99,7 +102,8 @@ def run(ctx: Ctx):
         first = c17_x.record_all(grid)
         order = list(range(len(grid)))
         ctx.rng.shuffle(order)
-        baseline = (first, c17_x.record_all(grid, order))
+        rot = G.DIALECTS[2:] + G.DIALECTS[:2]
+        baseline = (first, c17_x.record_all(grid, order, rot))
     if ctx.replay:
         import json
         rp = json.loads(open(ctx.replay).read())
